@@ -74,8 +74,9 @@ def make_context(tier, seed, which=None):
 
 def run_stream_case(case, record=False):
     cfg = case["cfg"]
-    sib = None
-    if case.get("sibling"):
+    holder = {"sib": None}
+
+    def make_sibling():
         # paused sibling: advanced past EndForward (it then holds its
         # checkpoints), resumed and finished after the observed stream
         from ..drivers import Stepper
@@ -88,15 +89,26 @@ def run_stream_case(case, record=False):
                     break
             for _ in range(case.get("rseed", 0) % 5):
                 sib.step()
+            holder["sib"] = sib
         except Exception:
-            sib = None
-    res = run_stream(cfg, passes=case.get("passes", 1),
+            holder["sib"] = None
+
+    after = None
+    if case.get("sibling"):
+        # half of the siblings are constructed before the observed schedule,
+        # half after its construction and before its first action
+        if case.get("rseed", 0) % 2:
+            after = make_sibling
+        else:
+            make_sibling()
+    res = run_stream(cfg, passes=case.get("passes", 1), after_build=after,
                      observe=case.get("observe"),
                      rng=random.Random(case.get("rseed", 0)), record=record,
                      protocol=case.get("protocol", "next"),
                      late=case.get("late", 0),
                      refinalize=case.get("refinalize", False),
                      probe=case.get("probe", False))
+    sib = holder["sib"]
     if sib is not None:
         try:
             sib.run()
